@@ -179,6 +179,15 @@ def _nested_dict_set(d, path, key, value):
     current[key] = value
 
 
+def _nested_dict_merge(d, src):
+    """Write the entries of `src` into `d` name by name; namespaces present in both are merged."""
+    for key, value in src.items():
+        if isinstance(value, dict) and isinstance(d.get(key), dict):
+            _nested_dict_merge(d[key], value)
+        else:
+            d[key] = value
+
+
 def _nested_dict_get(d, path):
     """Get a nested dictionary using the given path."""
     current = d
@@ -314,17 +323,12 @@ class State:
                 # scan_states is already vectorized by scan - just merge it
                 # Values saved in the scan body are stacked along the iteration
                 # axis and belong under the namespaces enclosing the scan.
+                # A namespace the body writes to may already hold other names.
                 namespace_path = tuple(self.namespace_stack)
-                for name, vectorized_values in scan_states.items():
-                    if namespace_path:
-                        _nested_dict_set(
-                            self.collected_state,
-                            namespace_path,
-                            name,
-                            vectorized_values,
-                        )
-                    else:
-                        self.collected_state[name] = vectorized_values
+                _nested_dict_merge(
+                    _nested_dict_get(self.collected_state, namespace_path),
+                    scan_states,
+                )
 
                 outvals = jtu.tree_leaves(
                     (flat_carry_out, scanned_out),
